@@ -336,7 +336,8 @@ def run_and_validate(ctx, worlds, report, max_rejections=12, module="Ps3NetSrvTr
                                          "tlc.out": v.res.out[-4000:]})
             rejections += 1
         else:
-            report.notes.append("unreproduced rejection in world %s (not counted)" % worlds[badw]["name"])
+            report.notes.append("unreproduced rejection in world %s (not counted): %s | %s" % (
+                worlds[badw]["name"], sig_of_line(rej_line), json.dumps(rej_line)[:700]))
         bi = order.index(badw)
         traces += order[:bi]
         accepted_lines += acc
